@@ -24,6 +24,9 @@ pub enum Ev {
   HbStale(u8),
   /// GAP(writer, gapStart, gapList.base, listed members)
   Gap(u8, i64, i64, Vec<i64>),
+  /// GAP whose gapList arrives as raw (numBits, bitmap words) with non-zero padding bits, as other
+  /// implementations may send it: (writer, gapStart, base, numBits, words)
+  GapRaw(u8, i64, i64, u32, Vec<u32>),
   /// DataReader::take(max) ; 0 = unlimited
   Take(u8),
   /// discovery announces the (matched, unchanged) writer again, as it does on every SPDP / SEDP refresh:
@@ -58,6 +61,9 @@ pub struct Cfg {
   pub data_menu: Option<Vec<Vec<i64>>>,
   pub take_sizes: Vec<u8>,
   pub max_hb: usize,
+  /// also offer every GAP of the menu in a non-canonical encoding (padding bits set)
+  #[serde(default)]
+  pub raw_gaps: bool,
   pub check_c01: bool,
   pub check_c03: bool,
 }
@@ -288,6 +294,7 @@ fn ev_kind(e: &Ev) -> &'static str {
     Ev::Hb(_, _, _, true) => "HB-final",
     Ev::HbStale(_) => "HB-stale",
     Ev::Gap(..) => "GAP",
+    Ev::GapRaw(..) => "GAP-raw",
     Ev::Take(_) => "TAKE",
     Ev::Reannounce(_) => "REANNOUNCE",
     Ev::Clean => "CLEAN",
@@ -364,6 +371,20 @@ impl Model for M {
               for s in set {
                 l.unavail.insert(s);
               }
+            }
+          }
+        }
+        Ev::GapRaw(w, start, base, num_bits, words) => {
+          let b = sim.gap_raw_bytes(*w, *start, *base, *num_bits, words);
+          sim.inject(&b);
+          // the ledger reads the bitmap itself: members are the set bits below numBits (MSB first), nothing else
+          let l = &mut led[*w as usize];
+          for s in *start..*base {
+            l.unavail.insert(s);
+          }
+          for bit in 0..*num_bits {
+            if words[(bit / 32) as usize] & (1 << (31 - bit % 32)) != 0 {
+              l.unavail.insert(*base + i64::from(bit));
             }
           }
         }
@@ -509,6 +530,17 @@ impl Model for M {
       next.push(Ev::Reannounce(w));
       for (s, b, set) in &self.cfg.gap_menu[w as usize] {
         next.push(Ev::Gap(w, *s, *b, set.clone()));
+        // the same GAP with numBits one more than its highest member needs and every padding bit set
+        if self.cfg.raw_gaps {
+          let nb = set.iter().map(|x| (x - b + 1) as u32).max().unwrap_or(0) + 1;
+          if nb <= 32 {
+            let mut word = !0u32 >> nb; // padding ones
+            for x in set {
+              word |= 1 << (31 - (x - b) as u32);
+            }
+            next.push(Ev::GapRaw(w, *s, *b, nb, vec![word]));
+          }
+        }
       }
     }
     for t in &self.cfg.take_sizes {
@@ -547,6 +579,7 @@ pub fn configs(tier: &str, prop: &str) -> Vec<(Cfg, BfsCfg)> {
       data_menu: None,
       take_sizes: vec![0, 1],
       max_hb: 3,
+      raw_gaps: true,
       check_c01: c01,
       check_c03: c03,
     },
@@ -563,6 +596,7 @@ pub fn configs(tier: &str, prop: &str) -> Vec<(Cfg, BfsCfg)> {
       data_menu: None,
       take_sizes: vec![0, 1],
       max_hb: 2,
+      raw_gaps: false,
       check_c01: c01,
       check_c03: c03,
     },
@@ -579,6 +613,7 @@ pub fn configs(tier: &str, prop: &str) -> Vec<(Cfg, BfsCfg)> {
       data_menu: None,
       take_sizes: vec![0],
       max_hb: 3,
+      raw_gaps: false,
       check_c01: c01,
       check_c03: c03,
     },
@@ -597,6 +632,7 @@ pub fn configs(tier: &str, prop: &str) -> Vec<(Cfg, BfsCfg)> {
         data_menu: Some(vec![vec![1, 2, 256, 257, 258, 600]]),
         take_sizes: vec![0],
         max_hb: 3,
+        raw_gaps: false,
         check_c01: c01,
         check_c03: c03,
       },
